@@ -6,12 +6,16 @@ import common
 import planar
 from common import rat, tf
 
-MODULE = 'GeoVerif.Props.C01'
+MODULE = ['GeoVerif.Props.C01', 'GeoVerif.Props.C01Convex']
 THEOREMS = ['GV.C01.' + t for t in (
     'pointInRing_eq_spec', 'pointInRing_boundary_false', 'pointInRing_inclB', 'insideEO_perm', 'insideEO_flip',
     'pointInRing_rotate', 'pointInRing_reverse', 'ringContains_eq_spec', 'ringContains_rotate', 'ringContains_reverse', 'bbox_prefilter_sound',
     'polyContains_iff', 'poly_hole_boundary_true', 'poly_outer_boundary_false', 'boxContains_iff',
-    'box_edge_contained', 'polyContains_mk_invariant', 'rect_pip_iff', 'parity_ray_independent')]
+    'box_edge_contained', 'polyContains_mk_invariant', 'rect_pip_iff', 'parity_ray_independent',
+    # Props/C01Convex.lean: crossing parity = geometric insideness for convex rings and triangles (no Jordan assumption)
+    'separated_pip_false', 'strictConvexCCW_weak_and_turns', 'convex_pip_iff', 'convex_pip_inclB_iff',
+    'triangle_convex', 'triangle_swap', 'triangle_pip_iff', 'triangle_pip_inclB_iff', 'triangle_edge_false',
+    'triangle_boundary_iff')]
 
 
 def _coord(x, y):
